@@ -162,6 +162,32 @@ pub fn with_histories(scn: &mut Scenario, rng: &mut Xo, max_iters: u64, second: 
     }
 }
 
+/// Ultra-fine resolution: a motion check of several hundred thousand validity queries (resolution
+/// fraction 2e-5, one extension as long as the space is wide). A handful per run — any step
+/// count capped or cast short of what the resolution demands shows up as a coverage gap.
+pub fn ultra_fine(prop: &'static str, seed: u64, index: u64) -> Scenario {
+    let mut rng2 = Xo::new(mix(seed, "ultra-fine", index));
+    let kind = *rng2.pick(&[PlannerKind::RRT, PlannerKind::RRTStar, PlannerKind::RRTConnect]);
+    let o2 = GenOpts { planner: Some(kind), families: vec!["open"], space_kinds: vec!["RV"], max_iters: 2, min_frac: 0.05, goal_sampler: Some(GoalSampler::Fixed), canonical_only: true, ..Default::default() };
+    let mut scn = gen::base(&mut rng2, prop, seed, index, &o2);
+    if let SpaceSpec::RV { frac, .. } = &mut scn.space {
+        *frac = 2e-5;
+    }
+    // start and goal in opposite corners of the box: the one extension is as long as the space
+    if let SpaceSpec::RV { bounds: Some(b), .. } = &scn.space {
+        scn.problems[0].starts[0] = b.iter().map(|(lo, hi)| lo + 0.05 * (hi - lo)).collect();
+        scn.problems[0].goal.target = b.iter().map(|(lo, hi)| hi - 0.05 * (hi - lo)).collect();
+    }
+    let ext = scn.param("ext").unwrap_or(1.0);
+    scn.planner.max_distance = 10.0 * ext;
+    scn.planner.search_radius = 10.0 * ext;
+    scn.planner.goal_bias = 1.0;
+    scn.clock = ClockSpec { tick_ns: 1000, cost_valid: vec![], cost_sample: vec![], cost_goal: vec![] };
+    scn.calls = vec![CallSpec::Setup { problem: 0 }, solve_budget(2)];
+    scn.family = "ultra_fine".into();
+    scn
+}
+
 /// Harvest history: the goal region is the whole space, so every solve returns the branch of the
 /// node it has just added; a long history of solves on the kept tree puts (nearly) every tree
 /// edge — extension, choose-parent and REWIRED edges with descendants — on some returned path.
@@ -309,6 +335,34 @@ impl Check for PathProp {
                 scn.sampling.script = (0..n).map(|_| rng.pick(&alpha).clone()).collect();
                 scn.family = format!("{}+alphabet", scn.family);
             }
+        }
+        if self.id == "C03" && index % 2003 == 11 {
+            return ultra_fine(self.id, seed, index);
+        }
+        if self.id == "C01" && index % 40 == 17 {
+            // dyadic point-obstacle world (see treechecks::fixture): a scripted sample sequence
+            // over a dyadic alphabet whose last state is an invalid POINT lying inside the goal
+            // region — a motion check that does not look at exactly the state that gets stored
+            // returns a path ending in it
+            let m = index / 40;
+            let kind = PlannerKind::ALL[(m % 3) as usize]; // RRT, RRT-Connect, RRT*
+            let (mut scn, alpha) = crate::treechecks::fixture("C01", seed, 12 * m, kind, 5);
+            scn.index = index;
+            let mut rng2 = Xo::new(mix(seed, "C01-dyadic", index));
+            let bad = alpha[alpha.len() - 1].clone();
+            // the goal target: a valid dyadic neighbour of the invalid point
+            let mut t = bad.clone();
+            t[0] = if bad[0] < 7.0 { bad[0] + 0.0625 } else { bad[0] - 0.0625 };
+            scn.problems[0].goal.target = t;
+            scn.problems[0].goal.radius = 0.5;
+            scn.problems[0].goal.comp = None;
+            scn.problems[0].goal.sampler = GoalSampler::Fixed;
+            let n = rng2.usize_in(4, 12);
+            scn.sampling.script = (0..n).map(|_| rng2.pick(&alpha).clone()).collect();
+            scn.planner.goal_bias = 0.0;
+            scn.calls = vec![CallSpec::Setup { problem: 0 }, solve_budget(n as u64)];
+            scn.family = "dyadic_point_obstacle".into();
+            return scn;
         }
         match self.id {
             // the cheap path oracles get harvest histories too (every tree edge / node of RRT and
